@@ -120,6 +120,12 @@ func genC23(seed uint64) *Plan {
 			switch r.Intn(16) {
 			case 0, 1, 2:
 				st = Step{Kind: "send_open", Label: evOpenValid}
+				if r.Chance(0.3) {
+					// this session negotiates hold time 0 (the FSM has served sessions with timers before)
+					o := openSpecFor(pc)
+					o.HoldTime = 0
+					st.Open = &o
+				}
 			case 3:
 				st = Step{Kind: "send_open", Label: evOpenInvalid, Open: badOpen()}
 			case 4, 5, 6:
@@ -142,6 +148,21 @@ func genC23(seed uint64) *Plan {
 			}
 			st.GapUS, st.Peer = gap, 0
 			pl.Steps = append(pl.Steps, st)
+		}
+		if r.Chance(0.25) {
+			// the same FSM serves two complete sessions, the second one with hold time 0
+			o := openSpecFor(pc)
+			o.HoldTime = 0
+			pl.Steps = append(pl.Steps,
+				Step{GapUS: 66_000_000, Kind: "wait", Label: evWait},
+				Step{GapUS: 50_000, Kind: "send_open", Label: evOpenValid},
+				Step{GapUS: 50_000, Kind: "keepalive", Label: evKeepalive},
+				Step{GapUS: 500_000, Kind: "peer_notify", Code: 6, Sub: 2, Label: evNotification},
+				Step{GapUS: 66_000_000, Kind: "wait", Label: evWait},
+				Step{GapUS: 50_000, Kind: "send_open", Label: evOpenValid, Open: &o},
+				Step{GapUS: 50_000, Kind: "keepalive", Label: evKeepalive},
+				Step{GapUS: 3_000_000, Kind: "wait", Label: evWait},
+				Step{GapUS: 3_000_000, Kind: "wait", Label: evWait})
 		}
 		pl.TailUS = 500_000
 		return pl
